@@ -1872,7 +1872,7 @@ static void build_expr(WorkList *list, ASTNode *expr, Environment *env) {
                     /* Generate: ({ bool _s; nl_StructName _v; dyn_array_pop_struct(arr, &_v, sizeof(nl_StructName), &_s); _v; }) */
                     emit_formatted(list, "({ bool _s; nl_%s _v; dyn_array_pop_struct(", struct_name);
                     build_expr(list, expr->as.call.args[0], env);  /* array */
-                    emit_formatted(list, ", &_v, sizeof(nl_%s), &_s); _v; })", struct_name);
+                    emit_formatted(list, ", &_v, sizeof(nl_%s), &_s); assert(_s && \"array_pop: empty array\"); _v; })", struct_name);
                 } else {
                     /* Map element type to suffix for primitive types */
                     const char *type_suffix = "int";
@@ -1901,7 +1901,8 @@ static void build_expr(WorkList *list, ASTNode *expr, Environment *env) {
                              type_suffix);
                     emit_literal(list, func_buf);
                     build_expr(list, expr->as.call.args[0], env);  /* array */
-                    emit_literal(list, ", &_s); _v; })");
+                    /* popping an empty array is a run-time error, not a default value */
+                    emit_literal(list, ", &_s); assert(_s && \"array_pop: empty array\"); _v; })");
                 }
             }
             /* Special handling for array_get - needs type-specific accessor */
